@@ -630,8 +630,8 @@ def toolchain_safe(case):
     """Shapes the sandbox's toolchains cannot handle are not generated (both concern owners of range-over-func defers):
     * LLVM 14's code generator (the only LLVM here; llgo targets LLVM 19) crashes at -O2 on some owners whose drain loop
       dispatches over a closure-typed loop case and other cases (observed: `for v := range seq(2) { defer func(p int){..r..}(v) };
-      defer func(){..x..}()`, and `for {defer F()}; for v := range seq(3) { defer func(){..x..}() }`): an owner gets at most
-      one closure callee, and one inside a range-over-func body only when it is the owner's only defer site;
+      defer func(){..x..}()`, and `for {defer F()}; for v := range seq(3) { defer func(){..x..}() }`): (also
+      `for v := range seq(1) { defer F() }; defer func(){..r..}()`): an owner gets a closure callee only as its only defer site;
     * the reference toolchain go1.24.0 crashes ("fatal error: panic while printing panic value", SIGSEGV in the runtime)
       when a deferred call of such an owner recovers a panic and further deferred calls of the owner follow: the owner's
       deferred callees do not call recover() (a caller's deferred function may)."""
@@ -673,9 +673,7 @@ def toolchain_safe(case):
         if has_rfor_defer(fns[f]["body"]):
             sites = defer_paths(fns, f)
             nclo = sum(1 for (_, s) in sites if fns[s[1]]["kind"] == "clo")
-            if nclo > 1:
-                return False
-            if rfor_defer_sites(fns[f]["body"]) and len(sites) > 1:
+            if nclo >= 1 and len(sites) > 1:
                 return False
             if any(recovers(fns[s[1]]["body"]) for (_, s) in sites):
                 return False
